@@ -89,6 +89,24 @@ Definition ped_ok (P : ped) : bool :=
 Definition geno (P : ped) (tv a ind : nat) : nat :=
   tbit a (h2p P tv ind false) + tbit a (h2p P tv ind true).
 
+(* number of allele assignments that induce the same genotype vector as a *)
+Definition gvec (P : ped) (tv a : nat) : seq nat := [seq geno P tv a ind | ind <- iota 0 (p_nind P)].
+Definition gcount (P : ped) (tv a : nat) : nat :=
+  count (fun a' => gvec P tv a' == gvec P tv a) (iota 0 (nassign P)).
+
+(* memoised versions (tables computed once per pedigree); equal to h2p / geno / gcount on the valid
+   index ranges *)
+Definition h2p_memo (P : ped) : nat -> nat -> bool -> nat :=
+  let t := [seq [seq (h2p P tv ind false, h2p P tv ind true) | ind <- iota 0 (p_nind P)] | tv <- iota 0 (ntrans P)] in
+  fun tv ind hap => let pq := nth (0, 0) (nth [::] t tv) ind in if hap then pq.2 else pq.1.
+Definition geno_memo (P : ped) : nat -> nat -> nat -> nat :=
+  let t := [seq [seq gvec P tv a | a <- iota 0 (nassign P)] | tv <- iota 0 (ntrans P)] in
+  fun tv a ind => nth 0 (nth [::] (nth [::] t tv) a) ind.
+Definition gcount_memo (P : ped) : nat -> nat -> nat :=
+  let g := [seq [seq gvec P tv a | a <- iota 0 (nassign P)] | tv <- iota 0 (ntrans P)] in
+  let t := [seq [seq count (fun r' => r' == r) row | r <- row] | row <- g] in
+  fun tv a => nth 0 (nth [::] t tv) a.
+
 Section Numbers.
 Variable F : Type.
 Variables (f0 f1 : F) (fadd fsub fmul fdiv : F -> F -> F) (feq0 : F -> bool).
@@ -135,11 +153,18 @@ Fixpoint wf_cols (m : nat) (prev : seq nat) (cs : seq column) : bool :=
     (ids == shared ++ iota m nnew) && wf_cols (m + nnew) ids cs'
   else true.
 Definition nreads (cs : seq column) : nat := foldr maxn 0 [seq r.+1 | c <- cs, r <- col_ids c].
-Definition wf (I : inst) : bool := ped_ok (i_ped I) && wf_cols 0 [::] (i_cols I).
+Definition wf (I : inst) : bool :=
+  [&& ped_ok (i_ped I), wf_cols 0 [::] (i_cols I)
+    & all (fun c => all (fun e => e_src e < p_nind (i_ped I)) (c_entries c)) (i_cols I)].
 
 (* ---------------------------------------------------------------- local factors of one column *)
 Section Column.
 Variable P : ped.
+(* haplotype_to_partition, genotype index and genotype-vector multiplicity: h2p P / geno P / gcount P,
+   or their memoised versions *)
+Variable partf : nat -> nat -> bool -> nat.
+Variable genof : nat -> nat -> nat -> nat.
+Variable gcntf : nat -> nat -> nat.
 Variable c : column.
 
 (* GenotypeColumnCostComputer: cost_partition[p][allele] for the bipartition x *)
@@ -148,7 +173,7 @@ Definition entry_factor (al : bool) (e : entry) : F :=
   | None => f1
   | Some obs => if al == obs then fsub f1 (e_p e) else e_p e
   end.
-Definition entry_part (tv : nat) (e : entry) (b : bool) : nat := h2p P tv (e_src e) (~~ b).
+Definition entry_part (tv : nat) (e : entry) (b : bool) : nat := partf tv (e_src e) (~~ b).
 Definition cost_partition (tv : nat) (x : seq bool) (p : nat) (al : bool) : F :=
   fprod [seq entry_factor al eb.1 | eb <- zip (c_entries c) x & entry_part tv eb.1 eb.2 == p].
 (* get_cost(a) = product over the partitions *)
@@ -170,12 +195,10 @@ Definition ttrans_raw (j i : nat) : F :=
 (* allele-assignment factors: product of the priors of the induced genotypes, divided by the number
    of assignments inducing the same genotype vector, normalised over the assignments *)
 Definition prior (ind g : nat) : F := nth f0 (nth [::] (c_priors c) ind) g.
-Definition gvec (tv a : nat) : seq nat := [seq geno P tv a ind | ind <- iota 0 (p_nind P)].
 Definition paa_unnorm (tv a : nat) : F :=
-  fdiv (fprod [seq prior ind (geno P tv a ind) | ind <- iota 0 (p_nind P)])
-       (fnat (count (fun a' => gvec tv a' == gvec tv a) (iota 0 (nassign P)))).
-Definition paa_raw (tv a : nat) : F :=
-  fdiv (paa_unnorm tv a) (fsum [seq paa_unnorm tv a' | a' <- iota 0 (nassign P)]).
+  fdiv (fprod [seq prior ind (genof tv a ind) | ind <- iota 0 (p_nind P)]) (fnat (gcntf tv a)).
+Definition paa_norm (tv : nat) : F := fsum [seq paa_unnorm tv a' | a' <- iota 0 (nassign P)].
+Definition paa_raw (tv a : nat) : F := fdiv (paa_unnorm tv a) (paa_norm tv).
 End Column.
 
 (* per-column context shared by both passes: sizes, projections, memoised local factors *)
@@ -189,27 +212,39 @@ Record cctx := CCtx {
 }.
 Definition cc_fw (cc : cctx) : nat := count id (cc_fmask cc).
 
-Definition mk_cctx (P : ped) (prev_ids : seq nat) (c : column) (next_ids : seq nat) : cctx :=
+Section Contexts.
+Variable P : ped.
+Variable partf : nat -> nat -> bool -> nat.
+Variable genof : nat -> nat -> nat -> nat.
+Variable gcntf : nat -> nat -> nat.
+
+Definition mk_cctx (prev_ids : seq nat) (c : column) (next_ids : seq nat) : cctx :=
   let ids := col_ids c in
   let k := size ids in
   let tn := ntrans P in
   let na := nassign P in
-  let paa := memo_nat2 tn na (paa_raw P c) in
-  let W := memo3 k tn na (fun x i a => fmul (nth f0 (cost_row P c i x) a) (paa i a)) in
+  let pu := memo_nat2 tn na (paa_unnorm P genof gcntf c) in
+  let pn := memo_nat2 tn 1 (fun i _ => fsum [seq pu i a | a <- iota 0 na]) in
+  let paa := memo_nat2 tn na (fun i a => fdiv (pu i a) (pn i 0)) in
+  let W := memo3 k tn na (fun x i a => fmul (nth f0 (cost_row P partf c i x) a) (paa i a)) in
+  let bn := memo_nat2 1 (2 * size (p_trios P)).+1 (fun _ x => bern P c x) in
+  let rs := memo_nat2 tn 1 (fun j _ => fsum [seq bn 0 (hamdist P j j') | j' <- iota 0 tn]) in
   CCtx k (count (fun r => r \in prev_ids) ids) [seq r \in next_ids | r <- ids] W
        (memo k tn (fun x i => fsum [seq W x i a | a <- iota 0 na]))
-       (memo_nat2 tn tn (ttrans_raw P c)).
+       (memo_nat2 tn tn (fun j i => fdiv (bn 0 (hamdist P j i)) (rs j 0))).
 
-Fixpoint mk_cctxs (P : ped) (prev_ids : seq nat) (cs : seq column) : seq cctx :=
+Fixpoint mk_cctxs (prev_ids : seq nat) (cs : seq column) : seq cctx :=
   if cs is c :: cs' then
-    mk_cctx P prev_ids c (if cs' is c' :: _ then col_ids c' else [::]) :: mk_cctxs P (col_ids c) cs'
+    mk_cctx prev_ids c (if cs' is c' :: _ then col_ids c' else [::]) :: mk_cctxs (col_ids c) cs'
   else [::].
+End Contexts.
 
 Definition dcc : cctx := CCtx 0 0 [::] (fun _ _ _ => f0) (fun _ _ => f0) (fun _ _ => f0).
 
 (* ---------------------------------------------------------------- one backward column *)
 Section Passes.
 Variable P : ped.
+Variable genof : nat -> nat -> nat -> nat.
 Let tn := ntrans P.
 Let na := nassign P.
 Let ts := iota 0 tn.
@@ -280,14 +315,16 @@ Definition bensure (k c : nat) (st : bstate) : bstate :=
 Definition fcol (cc : cctx) (first last : bool) (prevF B : seq bool -> nat -> F) (s : F)
   : (seq bool -> nat -> F) * seq (seq F) * bool :=
   let xs := bitvecs (cc_k cc) in
+  (* sum_prev_values / scaling_parameters[c] (the code divides each product by the scaling parameter;
+     the division is applied once per (x, i) here) *)
   let sumprev := memo (cc_k cc) tn (fun x i =>
-     if first then f1 else fsum [seq fmul (prevF (take (cc_bpw cc) x) j) (cc_T cc j i) | j <- ts]) in
-  let fprob := memo3 (cc_k cc) tn na (fun x i a => fdiv (fmul (sumprev x i) (cc_W cc x i a)) s) in
+     fdiv (if first then f1 else fsum [seq fmul (prevF (take (cc_bpw cc) x) j) (cc_T cc j i) | j <- ts]) s) in
+  let fprob := memo3 (cc_k cc) tn na (fun x i a => fmul (sumprev x i) (cc_W cc x i a)) in
   let bprob := fun x i => if last then f1 else B (mask (cc_fmask cc) x) i in
   (* forward_backward summed over the bipartitions *)
   let M := memo_nat2 tn na (fun i a => fsum [seq fmul (fprob x i a) (bprob x i) | x <- xs]) in
   let norm := fsum [seq fsum [seq M i a | a <- iota 0 na] | i <- ts] in
-  let lik := [seq [seq fdiv (fsum [seq fsum [seq M i a | a <- iota 0 na & geno P i a ind == g] | i <- ts]) norm
+  let lik := [seq [seq fdiv (fsum [seq fsum [seq M i a | a <- iota 0 na & genof i a ind == g] | i <- ts]) norm
                   | g <- iota 0 3] | ind <- iota 0 (p_nind P)] in
   let newF := memo (cc_fw cc) tn (fun sigma i =>
      fsum [seq fsum [seq fprob x i a | a <- iota 0 na] | x <- xs & mask (cc_fmask cc) x == sigma]) in
@@ -321,8 +358,10 @@ End Passes.
 (* GenotypeDPTable: the likelihood table [column][individual][genotype]; None if the run
    dereferenced a missing column or divided by a zero scaling sum / normalisation *)
 Definition fb_run (I : inst) : option (seq (seq (seq F))) :=
-  let ccs := mk_cctxs (i_ped I) [::] (i_cols I) in
-  let fs := fb_run_state (i_ped I) ccs in
+  let P := i_ped I in
+  let genof := geno_memo P in
+  let ccs := mk_cctxs P (h2p_memo P) genof (gcount_memo P) [::] (i_cols I) in
+  let fs := fb_run_state P genof ccs in
   if err (f_b fs) then None else Some (f_out fs).
 
 Definition fb_likelihood (I : inst) (c ind g : nat) : F :=
@@ -331,7 +370,7 @@ Definition fb_likelihood (I : inst) (c ind g : nat) : F :=
 (* ---------------------------------------------------------------- specification side *)
 (* local factors without memoisation *)
 Definition Wspec (P : ped) (c : column) (x : seq bool) (i a : nat) : F :=
-  fmul (cost P c i x a) (paa_raw P c i a).
+  fmul (cost P (h2p P) c i x a) (paa_raw P (geno P) (gcount P) c i a).
 
 (* weight of a complete assignment of the hidden variables: beta = one bit per read (global
    bipartition), path = one (transmission value, allele assignment) per column *)
